@@ -12,6 +12,7 @@ import (
 	"errors"
 	"fmt"
 	"os"
+	"regexp"
 	"sort"
 	"strconv"
 	"strings"
@@ -264,6 +265,7 @@ func predSearch(c searchCase, o *evid.Obs) error {
 	}
 
 	sharedIDTags(&c, refs[0], from, to, o)
+	patternTags(&c, from, to, o)
 	orTags(&c, from, to, o)
 	numericTags(&c, from, to, o)
 
@@ -451,6 +453,90 @@ func sharedIDTags(c *searchCase, ref []refeval.TQTraceResult, from, to int64, o 
 	}
 	if foreign && nsel >= 2 && len(sets) >= 2 {
 		o.Tag("span-ids-repeat:decisive")
+	}
+}
+
+// patternTags: kinds of regex patterns in the query (and whether a span in the window carries,
+// under the same key, a value that matches only because of / fails only without the flag or
+// escape), and fractional duration literals with a span duration (or, for aggregates, any
+// span duration) between the truncated and the written bound.
+func patternTags(c *searchCase, from, to int64, o *evid.Obs) {
+	inWindow := func(f func(sp *refeval.TQSpan)) {
+		for ti := range c.DB.Traces {
+			for si := range c.DB.Traces[ti].Spans {
+				sp := &c.DB.Traces[ti].Spans[si]
+				if sp.TS >= from && sp.TS < to {
+					f(sp)
+				}
+			}
+		}
+	}
+	between := func(num, unit string) {
+		if !strings.Contains(num, ".") {
+			return
+		}
+		o.Tag("dur-fractional-literal")
+		full, err1 := refeval.TQDurationNs(num, unit)
+		ip, _, _ := strings.Cut(num, ".")
+		trunc, err2 := refeval.TQDurationNs(ip, unit)
+		if err1 != nil || err2 != nil {
+			return
+		}
+		if trunc > full {
+			trunc, full = full, trunc
+		}
+		hit := false
+		inWindow(func(sp *refeval.TQSpan) {
+			if sp.Dur >= trunc && sp.Dur <= full && trunc != full {
+				hit = true
+			}
+		})
+		if hit {
+			o.Tag("dur-between-truncated-and-written")
+		}
+	}
+	for i := range c.Q.Sels {
+		c.Q.Sels[i].Expr.Terms(func(t *refeval.TQTerm) {
+			if t.Val.Kind == "dur" && t.Label == "duration" {
+				between(t.Val.Num, t.Val.Unit)
+			}
+			if t.Val.Kind != "str" || (t.Op != "=~" && t.Op != "!~") {
+				return
+			}
+			p := t.Val.Str
+			kind := ""
+			switch {
+			case strings.Contains(p, "(?i"):
+				kind = "flagged"
+			case strings.Contains(p, `\.`):
+				kind = "escaped-literal"
+			case strings.Contains(p, "|"):
+				kind = "alternation"
+			case strings.HasPrefix(p, "^") || strings.HasSuffix(p, "$"):
+				kind = "anchored"
+			default:
+				return
+			}
+			o.Tag("regex:" + kind)
+			// does the flag / escape decide for some span? compare with the pattern stripped of it
+			plain := strings.NewReplacer("(?i)", "", "(?i:", "(?:", `\.`, ".").Replace(p)
+			re1, e1 := regexp.Compile(p)
+			re2, e2 := regexp.Compile(plain)
+			key, _, kerr := refeval.TQKeyOfLabel(t.Label)
+			if e1 != nil || e2 != nil || kerr != nil || plain == p {
+				return
+			}
+			inWindow(func(sp *refeval.TQSpan) {
+				for _, kv := range sp.AllAttrs() {
+					if kv.K == key && re1.MatchString(kv.V) != re2.MatchString(kv.V) {
+						o.Tag("regex:flag-or-escape-decides")
+					}
+				}
+			})
+		})
+		if a := c.Q.Sels[i].Agg; a != nil && a.Attr == "duration" {
+			between(strings.TrimPrefix(a.Num, "-"), a.Unit)
+		}
 	}
 }
 
